@@ -626,6 +626,84 @@ Lemma fields_to_clone_indep : forall srt srt' srt2 srt2' fs,
 Proof. intros. unfold fields_to_clone. apply gerror_filtered_indep; assumption. Qed.
 
 (* ------------------------------------------------------------------------------------
+   5b. gencommon Interface.Methods (promoted embedded methods appended in map order)     *)
+
+Lemma method_lt_tie : forall a b, method_lt a b = false -> method_lt b a = false ->
+  gm_exported a = gm_exported b /\ gm_name a = gm_name b.
+Proof.
+  intros a b H1 H2. unfold method_lt in *.
+  destruct (gm_exported a), (gm_exported b); cbn [Bool.eqb negb andb] in *;
+    try discriminate H1; try discriminate H2;
+    (split; [reflexivity|apply str_lt_total; assumption]).
+Qed.
+
+Lemma iface_methods_perm : forall pi pi' promoted own to_add,
+  iter_ok pi -> iter_ok pi' ->
+  Permutation (iface_methods pi promoted own to_add) (iface_methods pi' promoted own to_add).
+Proof.
+  intros pi pi' promoted own to_add H1 H2. unfold iface_methods.
+  apply Permutation_app_head, Permutation_map, filter_perm, iter_perm; assumption.
+Qed.
+
+(* dropping entries of the appended part keeps the keys pairwise distinct *)
+Lemma app_filter_nodup : forall A B C (g : B -> C) (q : A * B -> bool) l1 (X : list (A * B)),
+  NoDup (map g (l1 ++ map snd X)) -> NoDup (map g (l1 ++ map snd (filter q X))).
+Proof.
+  intros A B C g q. induction l1 as [|x l1 IH]; intros X ND.
+  - cbn [app] in *. rewrite map_map in *.
+    apply (filter_map_nodup _ _ (fun kv => g (snd kv))). exact ND.
+  - cbn [app map] in *. inversion ND as [|? ? Hnin ND']; subst. constructor; [|apply IH, ND'].
+    intros Hin. apply Hnin. rewrite map_app, in_app_iff in *.
+    destruct Hin as [Hin|Hin]; [left; exact Hin|right].
+    apply in_map_iff in Hin. destruct Hin as [y [Ey Hy]].
+    apply in_map_iff in Hy. destruct Hy as [kv [Ekv Hkv]].
+    apply filter_In in Hkv. destruct Hkv as [Hkv _].
+    rewrite <- Ey, <- Ekv. apply in_map, in_map, Hkv.
+Qed.
+
+Lemma iface_methods_nodup : forall pi promoted own to_add,
+  iter_ok pi -> NoDup (map gm_name (own ++ map snd to_add)) ->
+  NoDup (map gm_name (iface_methods pi promoted own to_add)).
+Proof.
+  intros pi promoted own to_add H ND. unfold iface_methods. apply app_filter_nodup.
+  apply (Permutation_NoDup (l := map gm_name (own ++ map snd to_add))); [|exact ND].
+  apply Permutation_map, Permutation_app_head, Permutation_map, Permutation_sym, H.
+Qed.
+
+Lemma iface_methods_sorted_indep : forall pi pi' srt srt' promoted own to_add,
+  iter_ok pi -> iter_ok pi' -> sort_ok method_lt srt -> sort_ok method_lt srt' ->
+  NoDup (map gm_name (own ++ map snd to_add)) ->
+  srt (iface_methods pi promoted own to_add) = srt' (iface_methods pi' promoted own to_add).
+Proof.
+  intros pi pi' srt srt' promoted own to_add H1 H2 S1 S2 ND.
+  apply (sort_by_key_unique _ _ gm_name method_lt); try assumption.
+  - apply iface_methods_perm; assumption.
+  - apply iface_methods_nodup; assumption.
+  - intros a b E1 E2. apply (method_lt_tie a b E1 E2).
+Qed.
+
+Lemma comment_of_perm : forall name ms ms',
+  Permutation ms ms' -> NoDup (map gm_name ms) -> comment_of name ms = comment_of name ms'.
+Proof.
+  intros name ms ms' HP ND. unfold comment_of. f_equal. apply find_perm_unique.
+  - eapply perm_trans; [apply Permutation_sym, Permutation_rev|].
+    eapply perm_trans; [exact HP|apply Permutation_rev].
+  - intros x y Hx Hy Px Py. apply in_rev in Hx, Hy.
+    apply String.eqb_eq in Px, Py.
+    apply (nodup_key_inj _ _ gm_name ms); try assumption. congruence.
+Qed.
+
+Lemma iface_comment_indep : forall name pi pi' promoted own to_add,
+  iter_ok pi -> iter_ok pi' -> NoDup (map gm_name (own ++ map snd to_add)) ->
+  comment_of name (iface_methods pi promoted own to_add) =
+  comment_of name (iface_methods pi' promoted own to_add).
+Proof.
+  intros name pi pi' promoted own to_add H1 H2 ND. apply comment_of_perm.
+  - apply iface_methods_perm; assumption.
+  - apply iface_methods_nodup; assumption.
+Qed.
+
+(* ------------------------------------------------------------------------------------
    6. The hypotheses are satisfiable: str_lt is a strict (total) order, insertion sort is a
       sort_ok function for every strict weak order                                        *)
 
@@ -814,3 +892,21 @@ Qed.
 Lemma imap_inv_unfold : forall m,
   imap_inv m <-> (NoDup (map fst m) /\ forall k v, In (k, v) m -> im_path v = k).
 Proof. intros m. unfold imap_inv. split; intros H; exact H. Qed.
+
+(* generated Methods.Less: bool (false before true), then name *)
+Lemma method_lt_swo : swo method_lt.
+Proof.
+  constructor.
+  - intros a. unfold method_lt. rewrite Bool.eqb_reflx. apply str_lt_irrefl.
+  - intros a b c. unfold method_lt.
+    destruct (gm_exported a), (gm_exported b), (gm_exported c); cbn [Bool.eqb negb andb];
+      intros H1 H2; try discriminate H1; try discriminate H2; try reflexivity;
+      exact (swo_trans _ str_lt_swo _ _ _ H1 H2).
+  - intros a b c H1 H2. apply eqv_true_iff in H1, H2.
+    destruct H1 as [A1 A2]. destruct H2 as [B1 B2].
+    destruct (method_lt_tie a b A1 A2) as [Xa Na]. destruct (method_lt_tie b c B1 B2) as [Xb Nb].
+    apply eqv_true_iff. unfold method_lt. rewrite <- Xb, <- Xa, <- Nb, <- Na.
+    rewrite Bool.eqb_reflx. split; apply str_lt_irrefl.
+Qed.
+Lemma sort_ok_method : sort_ok method_lt (isort method_lt).
+Proof. apply isort_sort_ok, method_lt_swo. Qed.
